@@ -689,6 +689,9 @@ def reachdist(CIJ, ensure_binary=True):
     '''
     def reachdist2(CIJ, CIJpwr, R, D, n, powr, col, row):
         CIJpwr = np.dot(CIJpwr, CIJ)
+        # only the pattern of reachable pairs is needed: keeping the walk counts
+        # overflows (inf * 0 = nan, which is "nonzero") on large dense graphs
+        CIJpwr = (CIJpwr != 0).astype(CIJ.dtype)
         R = np.logical_or(R, CIJpwr != 0)
         D += R
 
